@@ -764,6 +764,45 @@ def rule_connect(R):
              "field order of %s is %s (found %s)" % (adt, want, keys), where=cand[0].span)
 
 
+def _len16_guarded(b):
+    for bb in sorted(b.switches):
+        if bb not in b.reachable:
+            continue
+        si = b.switch_info(bb)
+        sj = peel(si["subject"])
+        if sj[0] != "bin" or sj[1] not in ("Lt", "Le", "Gt", "Ge"):
+            continue
+        for lab in (True, False):
+            te, oe = si["edges"].get(lab), si["edges"].get(not lab)
+            if te is None or oe is None:
+                continue
+            region = b.reach([te], avoid=[oe]) - b.reach([oe], avoid=[te])
+            vals = [b.rvalue_term(st["rv"]) for x in region for st in b.blocks[x]["stmts"]
+                    if st["k"] == "assign" and not st["dst"]["proj"] and "agg" in st["rv"] and (st["rv"]["agg"].get("adt") or "").endswith("Result")]
+            if not vals or not all(v[0] == "agg" and v[3] == "Err" for v in vals):
+                continue
+            op = sj[1] if lab else {"Lt": "Ge", "Le": "Gt", "Gt": "Le", "Ge": "Lt"}[sj[1]]
+            a, c = _linear(sj[2]), _linear(sj[3])
+            if a is None or c is None:
+                continue
+            if op in ("Gt", "Ge"):
+                a, c = c, a
+                op = {"Gt": "Lt", "Ge": "Le"}[op]
+            e = dict(a)
+            for k, v in c.items():
+                e[k] = e.get(k, 0) - v
+            if op == "Le":
+                e[1] = e.get(1, 0) - 1
+            e = {k: v for k, v in e.items() if v != 0}
+            rest = {k: v for k, v in e.items() if k != 1}
+            if e.get(1) == 65535 and len(rest) == 1 and list(rest.values())[0] == -1 and "len(" in str(list(rest.keys())[0]):
+                # every field write lies behind the accepting edge
+                fields = [c_.bb for c_ in b.calls.values() if c_.bb in b.reachable and c_.is_("serialize_field", "SerializeStruct::serialize_field")]
+                if fields and all(b.must_pass([0], [fb], via_edges=[(bb, oe)])[0] for fb in fields):
+                    return True
+    return False
+
+
 def rule_len16(R):
     f = R.f
     for adt in ("wire::Utf8String", "wire::BinaryData"):
@@ -786,6 +825,10 @@ def rule_len16(R):
             # the conversion error is returned (a `?` on map_err(try_from))
             qs = b.q_edges(lambda x: any(is_call(y, "try_from") for y in walk(x)))
             ok = ok and bool(qs)
+            if not ok and has_cast and not has_try and of_len and chain(data)[1][-1:] == ["0"]:
+                # the explicit form: `if len > 65535 { return Err(..) }` and then `len as u16` -- the refusal, read as a
+                # linear inequality, is exactly `65535 - len < 0` and dominates the field writes
+                ok = _len16_guarded(b)
         R.ob("len16/%s" % adt.split("::")[-1], ok,
              "%s writes its length through u16::try_from(len) with the error edge returned (no narrowing cast), then the data"
              % adt, where=b.span)
@@ -932,7 +975,165 @@ def rule_varint_encoder(R):
     R.ob("varint/encoder/maximum", okm, "a value above 268 435 455 (four groups) is refused, not truncated", where=b.span)
 
 
+def rule_shared_advertised(R):
+    """"maximum packet size equal to the receive-buffer size": the CONNECT property is built from the length of the receive
+    buffer, widened to u32 and nothing else -- C14's clause"""
+    from .c14 import clause_connect_property
+    clause_connect_property(R, "connect/max-packet-size")
+
+
+def _linear(t, depth=0):
+    """a term as a linear form {atom: coefficient} over the atoms `L` (length of the serializer's buffer), `I` (its write
+    index), integer constants (atom 1) and anything else by its printed form; None when it is not linear"""
+    t = peel(t)
+    if depth > 12:
+        return None
+    if t[0] == "const":
+        return {1: t[2]} if isinstance(t[2], int) else None
+    if t[0] == "cast":
+        return _linear(t[2], depth + 1)
+    if is_call(t, "From::from", "Into::into") and len(t[3]) == 1 and peel(t[3][0])[0] == "const":
+        return _linear(t[3][0], depth + 1)       # `usize::from(u16::MAX)`
+    if t[0] == "field" and t[2] in ("0",) and peel(t[1])[0] == "bin":
+        return _linear(t[1], depth + 1)          # the value half of a checked operation
+    if t[0] == "bin" and t[1] in ("Add", "AddWithOverflow", "AddUnchecked", "Sub", "SubWithOverflow", "SubUnchecked"):
+        a, b = _linear(t[2], depth + 1), _linear(t[3], depth + 1)
+        if a is None or b is None:
+            return None
+        sg = 1 if t[1].startswith("Add") else -1
+        out = dict(a)
+        for k, v in b.items():
+            out[k] = out.get(k, 0) + sg * v
+        return out
+    if t[0] == "call" and len(t[3]) == 2 and is_call(t, "saturating_sub", "wrapping_sub", "saturating_add", "wrapping_add"):
+        # the index never exceeds the buffer length, so the saturating form equals the plain one
+        a, b = _linear(t[3][0], depth + 1), _linear(t[3][1], depth + 1)
+        if a is None or b is None:
+            return None
+        sg = -1 if "sub" in t[2] else 1
+        out = dict(a)
+        for k, v in b.items():
+            out[k] = out.get(k, 0) + sg * v
+        return out
+    if is_call(t, "len") and len(t[3]) == 1:
+        nm = chain(peel(t[3][0]))[1]
+        if nm[-1:] == ["buf"]:
+            return {"L": 1}
+        return {show(t): 1}
+    if t[0] == "field" and chain(t)[1][-1:] == ["index"] and chain(t)[0] == ("param", "self"):
+        return {"I": 1}
+    if t[0] in ("param", "field", "call", "deref"):
+        return {show(t): 1}
+    return None
+
+
+def rule_exact_fit(R):
+    """"too little buffer fails with an error" -- and enough buffer does not: the serializer's three bounds tests
+    (`push_bytes`, `push`, `commit`) refuse exactly when `index + n > buf.len()`.  The comparison guarding the
+    InsufficientMemory return is read as a linear inequality over the buffer length L, the write index I and the size n and
+    must be equivalent to `L - I - n < 0`: an off-by-one (`>=`) wastes the last byte, so a packet that ends exactly on the
+    end of its buffer -- a CONNECT that exactly fills the free tail of the transmit arena -- is refused for ever."""
+    f = R.f
+    n = 0
+
+    def forms(b, depth=0):
+        """linear forms E of the refusal tests `E < 0` in body b (directly, or in a local helper whose error is propagated
+        with `?`, its size parameter replaced by the argument)"""
+        out = []
+        for bb in sorted(b.switches):
+            if bb not in b.reachable:
+                continue
+            si = b.switch_info(bb)
+            sj = peel(si["subject"])
+            if sj[0] != "bin" or sj[1] not in ("Lt", "Le", "Gt", "Ge"):
+                continue
+            for lab in (True, False):
+                te, oe = si["edges"].get(lab), si["edges"].get(not lab)
+                if te is None:
+                    continue
+                # the edge whose own region builds the error (assigned to the return place directly, or -- when the test sits
+                # in a helper that was inlined -- to the place a `?` then propagates)
+                vals = [(st["dst"]["l"], b.rvalue_term(st["rv"])) for x in b.reach([te], avoid=[oe] if oe is not None else []) - b.reach([oe] if oe is not None else [], avoid=[te])
+                        for st in b.blocks[x]["stmts"] if st["k"] == "assign" and not st["dst"]["proj"] and "agg" in st["rv"]
+                        and (st["rv"]["agg"].get("adt") or "").endswith("Result")]
+                if not vals or not all(v[0] == "agg" and v[3] == "Err" for l_, v in vals):
+                    continue
+                # the refusal edge: normalise to  E < 0
+                op = sj[1] if lab else {"Lt": "Ge", "Le": "Gt", "Gt": "Le", "Ge": "Lt"}[sj[1]]
+                a, c = _linear(sj[2]), _linear(sj[3])
+                if a is None or c is None:
+                    out.append(None)
+                    continue
+                if op in ("Gt", "Ge"):
+                    a, c = c, a
+                    op = {"Gt": "Lt", "Ge": "Le"}[op]
+                e = dict(a)
+                for k, v in c.items():
+                    e[k] = e.get(k, 0) - v
+                if op == "Le":
+                    e[1] = e.get(1, 0) - 1          # E <= 0  <=>  E - 1 < 0
+                out.append({k: v for k, v in e.items() if v != 0})
+        if out or depth >= 2:
+            return out
+        for c in b.calls.values():
+            if c.bb not in b.reachable or c.path not in f.bodies:
+                continue
+            cb = f.bodies[c.path]
+            if cb.kind != "assoc_fn" or not (cb.self_ty or "").split("<")[0].endswith("MqttSerializer") or cb.is_async:
+                continue
+            if not b.q_edges(lambda x, c=c: any(y[0] == "call" and y[1] == c.bb for y in walk(x))):
+                continue
+            args = [b.operand_term(a) for a in c.args]
+            if not args or chain(peel(args[0]))[0] != ("param", "self"):
+                continue
+            for e in forms(cb, depth + 1):
+                if e is None:
+                    out.append(None)
+                    continue
+                e2 = {}
+                okm = True
+                for k, v in e.items():
+                    sub = None
+                    for pi in range(1, cb.arg_count):
+                        if k == show(("param", cb.param_name(pi + 1))):
+                            sub = _linear(args[pi]) if pi < len(args) else None
+                            if sub is None:
+                                okm = False
+                    if sub is None:
+                        e2[k] = e2.get(k, 0) + v
+                    else:
+                        for k2, v2 in sub.items():
+                            e2[k2] = e2.get(k2, 0) + v * v2
+                out.append({k: v for k, v in e2.items() if v != 0} if okm else None)
+        return out
+
+    for name in ("push_bytes", "push", "commit"):
+        cand = [b for b in f.bodies.values() if b.fn_name == name and (b.self_ty or "").split("<")[0].endswith("MqttSerializer")
+                and b.kind == "assoc_fn" and not f.in_fuzzing(b)]
+        if len(cand) != 1:
+            raise AnchorLost("serializer:" + name)
+        b = cand[0]
+        R.touch(b)
+        verdicts = []
+        for e in forms(b):
+            if e is None:
+                verdicts.append((False, "not a linear comparison"))
+                continue
+            rest = {k: v for k, v in e.items() if k not in ("L", "I")}
+            ok = e.get("L") == 1 and e.get("I") == -1 and len(rest) == 1 and list(rest.values())[0] == -1 and list(rest.keys())[0] != 1
+            if name == "push":
+                ok = e.get("L") == 1 and e.get("I") == -1 and rest == {1: -1}
+            verdicts.append((ok, " + ".join("%s*%s" % (v, k) for k, v in sorted(e.items(), key=str)) + " < 0"))
+        n += 1
+        R.ob("fit/exact/%s" % name, len(verdicts) == 1 and verdicts[0][0],
+             "MqttSerializer::%s refuses exactly when the data does not fit (`buf.len() - index - n < 0`); found %s"
+             % (name, "; ".join(v[1] for v in verdicts) if verdicts else "no bounds test"), where=b.span)
+    R.floor("fit/exact", n, 3, "serializer bounds tests")
+
+
 def run(R):
+    R.rule("fit", rule_exact_fit)
+    R.rule("advertised", rule_shared_advertised)
     R.rule("varint-encoder", rule_varint_encoder)
     R.rule("prim", rule_prim)
     R.rule("qos-wiring", rule_shared_qos_wiring)
